@@ -6,6 +6,7 @@
 //! contains no oracle of its own: it projects state and compares for equality
 //! with values TLC produced.
 mod core;
+mod disk;
 mod func;
 mod lock;
 mod util;
@@ -23,6 +24,7 @@ fn main() {
         "walring-trace" => walring::trace(rest),
         "core-run" => core::run(rest),
         "lock-run" => lock::run(rest),
+        "disk-probe" => disk::probe(rest),
         "func-run" => func::run(rest),
         "func-query-one" => func::query_one(rest),
         "lock-probe" => lock::probe_cmd(rest),
